@@ -1,60 +1,83 @@
-(** C14 — linearizability of lock;body;unlock operations (Model/Atomic.v). *)
+(** C14 — linearizability of lock; body; unlock operations whose bodies are
+    arbitrary micro-step programs over the shared state (Model/Atomic.v). *)
 From Coq Require Import List Bool Arith Lia.
 From Hts Require Import Model.Atomic.
 Import ListNotations.
 
 Section Proofs.
-  Variables (S O R : Type).
-  Variable step : S -> O -> S * R.
-  Variable is_read : O -> bool.
-  Hypothesis read_pure : forall s o, is_read o = true -> fst (step s o) = s.
-  Variable s0 : S.
+  Variables (St Op Rs Lc : Type).
+  Variable l0 : Op -> Lc.
+  Variable bstep : Op -> St -> Lc -> St * (Lc + Rs).
+  Variable is_read : Op -> bool.
+  (** a body that runs under the read lock does not store *)
+  Hypothesis read_pure : forall o s l, is_read o = true -> fst (bstep o s l) = s.
+  Variable s0 : St.
 
-  Notation config := (config S O R).
-  Notation tstep := (tstep S O R step is_read).
-  Notation seq_run := (seq_run S O R step).
+  Notation config := (config St Op Rs Lc).
+  Notation tstep := (tstep St Op Rs Lc l0 bstep is_read).
+  Notation iterp := (iterp St Op Rs Lc bstep).
+  Notation seq_rel := (seq_rel St Op Rs Lc l0 bstep).
+  Notation phase := (phase Op Rs Lc).
 
-  Definition hop (p : phase S O R) : option O :=
-    match p with Holding _ _ _ o | Mid _ _ _ o _ | Ran _ _ _ o _ => Some o | _ => None end.
+  Definition hop (p : phase) : option Op :=
+    match p with Body _ _ _ o _ | Ran _ _ _ o _ => Some o | _ => None end.
 
-  Definition op_of (e : nat * O * R) : O := snd (fst e).
-  Definition res_of (e : nat * O * R) : R := snd e.
+  Definition op_of (e : nat * Op * Rs) : Op := snd (fst e).
+  Definition res_of (e : nat * Op * Rs) : Rs := snd e.
 
   Definition lock_ok (c : config) : Prop :=
-    match lk _ _ _ c with
-    | LFree => forall t, hop (ph _ _ _ c t) = None
-    | LW t0 => forall t, hop (ph _ _ _ c t) <> None -> t = t0
+    match lk _ _ _ _ c with
+    | LFree => forall t, hop (ph _ _ _ _ c t) = None
+    | LW t0 => forall t, hop (ph _ _ _ _ c t) <> None -> t = t0
     | LR ts => NoDup ts /\ ts <> [] /\
-               forall t, (hop (ph _ _ _ c t) <> None <-> In t ts)
-                         /\ (forall o, hop (ph _ _ _ c t) = Some o -> is_read o = true)
+               forall t, (hop (ph _ _ _ _ c t) <> None <-> In t ts)
+                         /\ (forall o, hop (ph _ _ _ _ c t) = Some o -> is_read o = true)
     end.
 
   Definition hist_ok (c : config) : Prop :=
-    forall t, match ph _ _ _ c t with
-              | Idle _ _ _ => last_of _ _ t (hist _ _ _ c) = None
-                              \/ exists o r, last_of _ _ t (hist _ _ _ c) = Some (ERes _ _ t o r)
-              | Waiting _ _ _ o | Holding _ _ _ o | Mid _ _ _ o _ =>
-                  last_of _ _ t (hist _ _ _ c) = Some (EInv _ _ t o)
+    forall t, match ph _ _ _ _ c t with
+              | Idle _ _ _ => last_of _ _ t (hist _ _ _ _ c) = None
+                              \/ exists o r, last_of _ _ t (hist _ _ _ _ c) = Some (ERes _ _ t o r)
+              | Waiting _ _ _ o | Body _ _ _ o _ =>
+                  last_of _ _ t (hist _ _ _ _ c) = Some (EInv _ _ t o)
               | Ran _ _ _ o r | Released _ _ _ o r =>
-                  last_of _ _ t (hist _ _ _ c) = Some (ELin _ _ t o r)
+                  last_of _ _ t (hist _ _ _ _ c) = Some (ELin _ _ t o r)
               end.
 
+  (** [sg]: the state after the sequential execution of the finished
+      operations; every thread inside its body has got from [sg] to the
+      current shared state by its own micro-steps alone *)
+  Definition seq_ok (c : config) : Prop :=
+    exists sg, seq_rel s0 (lin _ _ _ _ c) sg
+      /\ (no_writer_mid _ _ _ _ is_read c -> sg = sh _ _ _ _ c)
+      /\ forall t o l, ph _ _ _ _ c t = Body _ _ _ o l ->
+           exists k, iterp k o sg (l0 o) = Some (sh _ _ _ _ c, l).
+
   Record ainv (c : config) : Prop := mk_ainv {
-    a_seq : seq_run s0 (map op_of (lin _ _ _ c)) = (sh _ _ _ c, map res_of (lin _ _ _ c));
-    a_snap : forall t o snap, ph _ _ _ c t = Mid _ _ _ o snap -> snap = sh _ _ _ c;
+    a_seq : seq_ok c;
     a_lock : lock_ok c;
     a_hist : hist_ok c;
-    a_br : bracketed _ _ (hist _ _ _ c);
-    a_lin : lin_of _ _ (hist _ _ _ c) = lin _ _ _ c }.
+    a_br : bracketed _ _ (hist _ _ _ _ c);
+    a_lin : lin_of _ _ (hist _ _ _ _ c) = lin _ _ _ _ c }.
 
-  Lemma seq_run_app s l1 l2 :
-    seq_run s (l1 ++ l2) =
-    let '(s1, r1) := seq_run s l1 in let '(s2, r2) := seq_run s1 l2 in (s2, r1 ++ r2).
+  Lemma iterp_snoc k : forall o s l s1 l1 s2 l2,
+    iterp k o s l = Some (s1, l1) -> bstep o s1 l1 = (s2, inl l2) ->
+    iterp (S k) o s l = Some (s2, l2).
   Proof.
-    revert s. induction l1 as [|o l1 IH]; intros s; simpl.
-    - destruct (seq_run s l2); reflexivity.
-    - destruct (step s o) as [s' x]. rewrite IH.
-      destruct (seq_run s' l1) as [s1 r1]. destruct (seq_run s1 l2). reflexivity.
+    induction k as [|k IH]; intros o s l s1 l1 s2 l2 H B; simpl in *.
+    - inversion H; subst. rewrite B. reflexivity.
+    - destruct (bstep o s l) as [s' [l'|r]] eqn:E; [|discriminate].
+      specialize (IH o s' l' s1 l1 s2 l2 H B). simpl in IH. exact IH.
+  Qed.
+
+  Lemma iterp_read k : forall o s l s1 l1,
+    is_read o = true -> iterp k o s l = Some (s1, l1) -> s1 = s.
+  Proof.
+    induction k as [|k IH]; intros o s l s1 l1 RD H; simpl in *.
+    - inversion H; auto.
+    - pose proof (read_pure o s l RD) as P.
+      destruct (bstep o s l) as [s' [l'|r]] eqn:E; [|discriminate].
+      simpl in P. subst s'. eapply IH; eauto.
   Qed.
 
   Lemma upd_same {A} (f : nat -> A) t v : upd f t v t = v.
@@ -84,20 +107,29 @@ Section Proofs.
   Ltac upd_cases t' t :=
     destruct (Nat.eq_dec t' t) as [->|?]; [rewrite ?upd_same in * | rewrite ?upd_other in * by auto].
 
-  Lemma last_of_cons t e h :
-    last_of O R t (e :: h) = if Nat.eqb (ev_thread _ _ e) t then Some e else last_of O R t h.
-  Proof. reflexivity. Qed.
+  (** a step that changes neither shared state nor [lin], and moves [t]
+      between phases that are not [Body], keeps [seq_ok] *)
+  Lemma seq_ok_frame c t p' lk' pr' h' :
+    (forall o l, ph _ _ _ _ c t <> Body _ _ _ o l) -> (forall o l, p' <> Body _ _ _ o l) ->
+    seq_ok c ->
+    seq_ok (mkcfg _ _ _ _ (sh _ _ _ _ c) lk' pr' (upd (ph _ _ _ _ c) t p') h' (lin _ _ _ _ c)).
+  Proof.
+    intros NB NB' (sg & S1 & S2 & S3). exists sg. simpl. repeat split; auto.
+    - intros NW. apply S2. intros t' o l H. apply (NW t' o l). simpl.
+      upd_cases t' t; auto. exfalso. eapply NB; eauto.
+    - intros t' o l. upd_cases t' t; [intros H; exfalso; eapply NB'; eauto|]. apply S3.
+  Qed.
 
   Lemma tstep_inv c t : ainv c -> ainv (tstep c t).
   Proof.
-    intros [SEQ SNAP LOCK HIST BR LIN]. unfold tstep.
+    intros [SEQ LOCK HIST BR LIN]. unfold tstep.
     pose proof (HIST t) as Ht.
-    destruct (ph S O R c t) as [|o|o|o snap|o r|o r] eqn:PH.
+    destruct (ph St Op Rs Lc c t) as [|o|o l|o r|o r] eqn:PH.
     - (* invoke *)
-      destruct (prog S O R c t) as [|o rest] eqn:PR; [constructor; auto|].
+      destruct (prog St Op Rs Lc c t) as [|o rest] eqn:PR; [constructor; auto|].
       constructor; simpl; auto.
-      + intros t' o' snap'. upd_cases t' t; [discriminate|]. apply SNAP.
-      + unfold lock_ok in *; simpl. destruct (lk S O R c).
+      + apply seq_ok_frame; auto; try (rewrite PH); discriminate.
+      + unfold lock_ok in *; simpl. destruct (lk St Op Rs Lc c).
         * intros t'. upd_cases t' t; auto.
         * intros t'. upd_cases t' t; [simpl; congruence|]. apply LOCK.
         * destruct LOCK as (ND & NE & L). repeat split; auto.
@@ -108,10 +140,20 @@ Section Proofs.
         * destruct (Nat.eqb_spec t t'); [congruence|]. apply HIST.
       + constructor; auto. simpl. destruct Ht as [->|(o' & r' & ->)]; constructor.
     - (* acquire *)
+      assert (ACQ : forall lk', (forall t', hop (ph St Op Rs Lc c t') <> None -> forall o', hop (ph St Op Rs Lc c t') = Some o' -> is_read o' = true) ->
+                seq_ok (mkcfg _ _ _ _ (sh St Op Rs Lc c) lk' (prog St Op Rs Lc c)
+                          (upd (ph St Op Rs Lc c) t (Body _ _ _ o (l0 o))) (hist St Op Rs Lc c) (lin St Op Rs Lc c))).
+      { intros lk' RDS. destruct SEQ as (sg & S1 & S2 & S3).
+        assert (NW : no_writer_mid _ _ _ _ is_read c).
+        { intros t' o' l' H. apply (RDS t'); rewrite H; simpl; congruence. }
+        exists sg. simpl. split; [auto|]. split; [intros _; auto|].
+        intros t' o' l'. upd_cases t' t.
+        - intros H; inversion H; subst. exists O. simpl. rewrite (S2 NW). reflexivity.
+        - apply S3. }
       unfold acquire. destruct (is_read o) eqn:RD.
-      + destruct (lk S O R c) as [|t0|ts] eqn:LK; [| constructor; auto; unfold lock_ok; rewrite LK; auto |].
+      + destruct (lk St Op Rs Lc c) as [|t0|ts] eqn:LK; [| constructor; auto; unfold lock_ok; rewrite LK; auto |].
         * constructor; simpl; auto.
-          { intros t' o' snap'. upd_cases t' t; [discriminate|]. apply SNAP. }
+          { apply ACQ. unfold lock_ok in LOCK. rewrite LK in LOCK. intros t' H. rewrite LOCK in H. congruence. }
           { unfold lock_ok in *; simpl. rewrite LK in LOCK. repeat split.
             - constructor; [simpl; tauto | constructor].
             - discriminate.
@@ -120,7 +162,8 @@ Section Proofs.
             - upd_cases t0 t; simpl; [congruence|]. rewrite LOCK. discriminate. }
           { intros t'. simpl. upd_cases t' t; auto. apply HIST. }
         * constructor; simpl; auto.
-          { intros t' o' snap'. upd_cases t' t; [discriminate|]. apply SNAP. }
+          { apply ACQ. unfold lock_ok in LOCK. rewrite LK in LOCK. destruct LOCK as (_ & _ & L).
+            intros t' _ o' H. apply (proj2 (L t')); auto. }
           { unfold lock_ok in *; simpl. rewrite LK in LOCK. destruct LOCK as (ND & NE & L).
             assert (Hnt : ~ In t ts). { intros Hin. apply L in Hin. rewrite PH in Hin. simpl in Hin. congruence. }
             repeat split.
@@ -130,70 +173,79 @@ Section Proofs.
             - upd_cases t0 t; simpl; [discriminate|]. intros [?|Hin]; [congruence|]. apply L; auto.
             - upd_cases t0 t; simpl; [congruence|]. apply L. }
           { intros t'. simpl. upd_cases t' t; auto. apply HIST. }
-      + destruct (lk S O R c) as [|t0|ts] eqn:LK;
+      + destruct (lk St Op Rs Lc c) as [|t0|ts] eqn:LK;
           [| constructor; auto; unfold lock_ok; rewrite LK; auto | constructor; auto; unfold lock_ok; rewrite LK; auto].
         constructor; simpl; auto.
-        { intros t' o' snap'. upd_cases t' t; [discriminate|]. apply SNAP. }
+        { apply ACQ. unfold lock_ok in LOCK. rewrite LK in LOCK. intros t' H. rewrite LOCK in H. congruence. }
         { unfold lock_ok in *; simpl. rewrite LK in LOCK.
           intros t'. upd_cases t' t; auto. rewrite LOCK. congruence. }
         { intros t'. simpl. upd_cases t' t; auto. apply HIST. }
-    - (* begin: copy the shared state *)
-      constructor; simpl; auto.
-      + intros t' o' snap'. upd_cases t' t; [intros H; inversion H; auto | apply SNAP].
-      + unfold lock_ok in *; simpl. destruct (lk S O R c).
-        * intros t'. specialize (LOCK t'). upd_cases t' t; auto. rewrite PH in LOCK. discriminate.
-        * intros t'. upd_cases t' t; [|apply LOCK]. intros _. apply LOCK. rewrite PH. discriminate.
-        * destruct LOCK as (ND & NE & L). repeat split; auto.
-          all: upd_cases t0 t; try apply L; simpl in *.
-          { intros _. apply L. rewrite PH. discriminate. }
-          { discriminate. }
-          { intros o' H; inversion H; subst. apply (proj2 (L t)). rewrite PH. reflexivity. }
-      + intros t'. simpl. upd_cases t' t; auto. apply HIST.
-    - (* finish: the linearization point *)
-      pose proof (SNAP t o snap PH) as ->.
-      destruct (step (sh S O R c) o) as [s' r] eqn:ST.
-      assert (EXCL : is_read o = false -> forall t', t' <> t -> hop (ph S O R c t') = None).
-      { intros RD t' Hne. unfold lock_ok in LOCK. destruct (lk S O R c) as [|t0|ts].
+    - (* a micro-step of the body, on the shared state *)
+      destruct SEQ as (sg & S1 & S2 & S3).
+      destruct (S3 t o l PH) as [k IT].
+      assert (EXCL : is_read o = false -> forall t', t' <> t -> hop (ph St Op Rs Lc c t') = None).
+      { intros RD t' Hne. unfold lock_ok in LOCK. destruct (lk St Op Rs Lc c) as [|t0|ts].
         - apply LOCK.
-        - destruct (hop (ph S O R c t')) eqn:E; auto. exfalso.
+        - destruct (hop (ph St Op Rs Lc c t')) eqn:E; auto. exfalso.
           assert (t' = t0) by (apply LOCK; congruence).
           assert (t = t0) by (apply LOCK; rewrite PH; discriminate). congruence.
         - destruct LOCK as (_ & _ & L). exfalso.
           assert (is_read o = true) by (apply (proj2 (L t)); rewrite PH; reflexivity). congruence. }
-      constructor; simpl; auto.
-      + rewrite map_app, seq_run_app, SEQ. simpl. unfold op_of at 1. simpl. rewrite ST.
-        rewrite map_app. simpl. destruct (is_read o) eqn:RD; auto.
-        pose proof (read_pure (sh S O R c) o RD) as P. rewrite ST in P. simpl in P. subst. reflexivity.
-      + intros t' o' snap'. upd_cases t' t; [discriminate|]. intros H.
-        destruct (is_read o) eqn:RD; [eapply SNAP; eauto|].
-        specialize (EXCL eq_refl t' n). rewrite H in EXCL. discriminate.
-      + unfold lock_ok in *; simpl. destruct (lk S O R c).
-        * intros t'. specialize (LOCK t'). upd_cases t' t; auto. rewrite PH in LOCK. discriminate.
-        * intros t'. upd_cases t' t; [|apply LOCK]. intros _. apply LOCK. rewrite PH. discriminate.
-        * destruct LOCK as (ND & NE & L). repeat split; auto.
+      assert (LOCK' : forall p', hop p' = Some o -> forall s' h' li',
+                lock_ok (mkcfg _ _ _ _ s' (lk St Op Rs Lc c) (prog St Op Rs Lc c) (upd (ph St Op Rs Lc c) t p') h' li')).
+      { intros p' HP s' h' li'. unfold lock_ok in *; simpl. destruct (lk St Op Rs Lc c).
+        - intros t'. specialize (LOCK t'). upd_cases t' t; auto. rewrite PH in LOCK. discriminate.
+        - intros t'. upd_cases t' t; [|apply LOCK]. intros _. apply LOCK. rewrite PH. discriminate.
+        - destruct LOCK as (ND & NE & L). repeat split; auto.
           all: upd_cases t0 t; try apply L; simpl in *.
-          { intros _. apply L. rewrite PH. discriminate. }
-          { discriminate. }
-          { intros o' H; inversion H; subst. apply (proj2 (L t)). rewrite PH. reflexivity. }
-      + intros t'. simpl. upd_cases t' t.
-        * rewrite Nat.eqb_refl. reflexivity.
-        * destruct (Nat.eqb_spec t t'); [congruence|]. apply HIST.
-      + constructor; auto. simpl. rewrite Ht. constructor.
-      + rewrite LIN. reflexivity.
+          + intros _. apply L. rewrite PH. discriminate.
+          + rewrite HP. discriminate.
+          + rewrite HP. intros o' H; inversion H; subst. apply (proj2 (L t)). rewrite PH. reflexivity. }
+      destruct (bstep o (sh St Op Rs Lc c) l) as [s' [l'|r]] eqn:ST.
+      + (* continues *)
+        constructor; simpl; auto.
+        * destruct (is_read o) eqn:RD.
+          { pose proof (read_pure o (sh St Op Rs Lc c) l RD) as P. rewrite ST in P. simpl in P. subst s'.
+            exists sg. simpl. repeat split; auto.
+            - intros NW. apply S2. intros t' o' l'' H. upd_cases t' t; [congruence|].
+              apply (NW t' o' l''). simpl. rewrite upd_other; auto.
+            - intros t' o' l''. upd_cases t' t; [|apply S3].
+              intros H; inversion H; subst. exists (S k). eapply iterp_snoc; eauto. }
+          { exists sg. simpl. repeat split; auto.
+            - intros NW. specialize (NW t o l'). simpl in NW. rewrite upd_same in NW. rewrite NW in RD; auto. discriminate.
+            - intros t' o' l''. upd_cases t' t.
+              + intros H; inversion H; subst. exists (S k). eapply iterp_snoc; eauto.
+              + intros H. specialize (EXCL eq_refl t' n). rewrite H in EXCL. discriminate. }
+        * intros t'. simpl. upd_cases t' t; auto. apply HIST.
+      + (* finishes: the linearization point *)
+        assert (RUN : runs _ _ _ _ l0 bstep o sg s' r) by (exists k, (sh St Op Rs Lc c), l; auto).
+        constructor; simpl; auto.
+        * exists s'. simpl. split; [eapply seq_snoc; eauto|]. split; auto.
+          intros t' o' l''. upd_cases t' t; [discriminate|]. intros H.
+          destruct (is_read o) eqn:RD.
+          { pose proof (read_pure o (sh St Op Rs Lc c) l RD) as P. rewrite ST in P. simpl in P. subst s'.
+            pose proof (iterp_read _ _ _ _ _ _ RD IT) as E.
+            destruct (S3 t' o' l'' H) as [k' IT']. exists k'. rewrite <- E in IT'. exact IT'. }
+          { specialize (EXCL eq_refl t' n). rewrite H in EXCL. discriminate. }
+        * intros t'. simpl. upd_cases t' t.
+          { rewrite Nat.eqb_refl. reflexivity. }
+          { destruct (Nat.eqb_spec t t'); [congruence|]. apply HIST. }
+        * constructor; auto. simpl. rewrite Ht. constructor.
+        * rewrite LIN. reflexivity.
     - (* release *)
       constructor; simpl; auto.
-      + intros t' o' snap'. upd_cases t' t; [discriminate|]. apply SNAP.
-      + unfold lock_ok, release in *; simpl. destruct (lk S O R c) as [|t0|ts] eqn:LK.
+      + apply seq_ok_frame; auto; try (rewrite PH); discriminate.
+      + unfold lock_ok, release in *; simpl. destruct (lk St Op Rs Lc c) as [|t0|ts] eqn:LK.
         * intros t'. specialize (LOCK t'). upd_cases t' t; auto.
         * intros t'. upd_cases t' t; auto.
-          destruct (hop (ph S O R c t')) eqn:E; auto. exfalso.
+          destruct (hop (ph St Op Rs Lc c t')) eqn:E; auto. exfalso.
           assert (t' = t0) by (apply LOCK; congruence).
           assert (t = t0) by (apply LOCK; rewrite PH; discriminate). congruence.
         * destruct LOCK as (ND & NE & L).
           pose proof (remove1_spec t ts ND) as RS.
           destruct (remove1 t ts) as [|a ts'] eqn:RM.
           { intros t'. upd_cases t' t; auto.
-            destruct (hop (ph S O R c t')) eqn:E; auto. exfalso.
+            destruct (hop (ph St Op Rs Lc c t')) eqn:E; auto. exfalso.
             assert (In t' ts) by (apply L; congruence).
             apply (proj2 (RS t')); auto. }
           { repeat split.
@@ -207,8 +259,8 @@ Section Proofs.
       + intros t'. simpl. upd_cases t' t; auto. apply HIST.
     - (* respond *)
       constructor; simpl; auto.
-      + intros t' o' snap'. upd_cases t' t; [discriminate|]. apply SNAP.
-      + unfold lock_ok in *; simpl. destruct (lk S O R c).
+      + apply seq_ok_frame; auto; try (rewrite PH); discriminate.
+      + unfold lock_ok in *; simpl. destruct (lk St Op Rs Lc c).
         * intros t'. upd_cases t' t; auto.
         * intros t'. upd_cases t' t; [simpl; congruence|]. apply LOCK.
         * destruct LOCK as (ND & NE & L). repeat split; auto.
@@ -220,30 +272,65 @@ Section Proofs.
       + constructor; auto. simpl. rewrite Ht. constructor.
   Qed.
 
-  Lemma init_inv p : ainv (init S O R s0 p).
+  Lemma init_inv p : ainv (init St Op Rs Lc s0 p).
   Proof.
     constructor; simpl; auto.
-    - discriminate.
+    - exists s0. simpl. repeat split; auto; [constructor | discriminate].
     - unfold lock_ok; simpl; auto.
     - intros t; simpl; auto.
     - constructor.
   Qed.
 
-  Lemma exec_inv sched : forall c, ainv c -> ainv (exec S O R step is_read c sched).
+  Lemma exec_inv sched : forall c, ainv c -> ainv (exec St Op Rs Lc l0 bstep is_read c sched).
   Proof. induction sched as [|t r IH]; intros c H; simpl; auto. apply IH. apply tstep_inv; auto. Qed.
 
-  (** Every interleaved execution, under every schedule: the shared state
-      and all results are those of the sequential execution of the operations
-      in the order of their linearization points; that order is the order of
-      the ELin events of the history, and in the history every operation's
-      ELin lies between its invocation and its response (so the order
-      respects real time). *)
+  (** Every interleaved execution, under every schedule, with bodies cut
+      into micro-steps in any way: there is a state [sg] that the sequential
+      execution of the finished operations - the same bodies, one after the
+      other, in the order of their linearization points - reaches from [s0]
+      with exactly the results observed; the shared state is [sg] whenever no
+      writer is in the middle of its body; the order is that of the ELin
+      events of the history, each of which lies between the invocation and
+      the response of its operation (real-time order). *)
   Theorem linearizable_gen p sched :
-    let c := exec S O R step is_read (init S O R s0 p) sched in
-    seq_run s0 (map op_of (lin _ _ _ c)) = (sh _ _ _ c, map res_of (lin _ _ _ c))
-    /\ lin_of _ _ (hist _ _ _ c) = lin _ _ _ c
-    /\ bracketed _ _ (hist _ _ _ c).
+    let c := exec St Op Rs Lc l0 bstep is_read (init St Op Rs Lc s0 p) sched in
+    (exists sg, seq_rel s0 (lin _ _ _ _ c) sg
+                /\ (no_writer_mid _ _ _ _ is_read c -> sg = sh _ _ _ _ c))
+    /\ lin_of _ _ (hist _ _ _ _ c) = lin _ _ _ _ c
+    /\ bracketed _ _ (hist _ _ _ _ c).
   Proof.
-    intros c. destruct (exec_inv sched _ (init_inv p)) as [H1 _ _ _ H5 H6]. auto.
+    intros c. destruct (exec_inv sched _ (init_inv p)) as [(sg & H1 & H2 & _) _ _ H5 H6].
+    split; eauto.
+  Qed.
+
+  (** If the bodies, run alone, compute a step function, the sequential
+      execution is [seq_run] of that function. *)
+  Lemma seq_rel_run (step : St -> Op -> St * Rs) :
+    (forall o s s' r, runs _ _ _ _ l0 bstep o s s' r -> step s o = (s', r)) ->
+    forall s l s', seq_rel s l s' -> seq_run St Op Rs step s (map op_of l) = (s', map res_of l).
+  Proof.
+    intros IMP s l s' H. induction H; simpl; auto.
+    rewrite !map_app. simpl.
+    assert (APP : forall a os1 os2, seq_run St Op Rs step a (os1 ++ os2) =
+              let '(s1, r1) := seq_run St Op Rs step a os1 in
+              let '(s2', r2) := seq_run St Op Rs step s1 os2 in (s2', r1 ++ r2)).
+    { intros a os1. revert a. induction os1 as [|x os1 IHo]; intros a os2; simpl.
+      - destruct (seq_run St Op Rs step a os2); reflexivity.
+      - destruct (step a x) as [a' y]. rewrite IHo.
+        destruct (seq_run St Op Rs step a' os1) as [s1' r1]. destruct (seq_run St Op Rs step s1' os2). reflexivity. }
+    rewrite APP, IHseq_rel. simpl. unfold op_of at 1. simpl. rewrite (IMP _ _ _ _ H0). reflexivity.
+  Qed.
+
+  (** both together *)
+  Theorem linearizable_step (step : St -> Op -> St * Rs) p sched :
+    (forall o s s' r, runs _ _ _ _ l0 bstep o s s' r -> step s o = (s', r)) ->
+    let c := exec St Op Rs Lc l0 bstep is_read (init St Op Rs Lc s0 p) sched in
+    (exists sg, seq_run St Op Rs step s0 (map op_of (lin _ _ _ _ c)) = (sg, map res_of (lin _ _ _ _ c))
+                /\ (no_writer_mid _ _ _ _ is_read c -> sg = sh _ _ _ _ c))
+    /\ lin_of _ _ (hist _ _ _ _ c) = lin _ _ _ _ c
+    /\ bracketed _ _ (hist _ _ _ _ c).
+  Proof.
+    intros IMP c. destruct (linearizable_gen p sched) as ((sg & H1 & H2) & H3 & H4).
+    split; auto. exists sg. split; auto. apply seq_rel_run; auto.
   Qed.
 End Proofs.
